@@ -94,9 +94,8 @@ T_Return(n, e) == T_ReturnGuard(n, e) /\ T_ReturnEff(n, e)
 (***************************************************************************)
 MayReturn(res, isE, isEOF) ==
   LET g == Got  f == rp.fault IN
-  \/ /\ Complete(g)                                     \* whole frame obtained
-     /\ \/ f \in {"nil", "eof"}                         \* (n, io.EOF) with the last bytes: still the packet
-        \/ f = "E" /\ (res = "pkt" \/ isE)              \* D6: either outcome
+  \/ Complete(g)                                        \* whole frame obtained: the content decides (Verdict);
+                                                        \* an error E that came with the last bytes may be reported or not (D6)
   \/ /\ ~Complete(g) /\ f = "E" /\ res = "err" /\ isE   \* transport failed inside the frame
   \/ /\ ~Complete(g) /\ f = "eof" /\ res = "err"        \* stream ended inside the frame ...
      /\ (Len(g) = 0 => isEOF)                           \* ... or exactly on a frame boundary
